@@ -28,7 +28,7 @@ fn add_key(map: &mut PublicKeyMap, entity: &str, kp: &Ed25519KeyPair) {
 }
 
 fn fail(v: &mut Vec<Value>, x: Value) {
-    if v.len() < 50 {
+    if v.len() < 400 {
         v.push(x);
     }
 }
@@ -46,6 +46,11 @@ fn events() -> Vec<(&'static str, Value)> {
         // replaced, other entries of `hashes` stay
         ("message_with_stale_hashes", json!({"type": "m.room.message", "room_id": "!r:a.org", "sender": "@u:a.org", "origin_server_ts": 9, "depth": 3,
             "prev_events": [], "auth_events": [], "content": {"body": "edited", "msgtype": "m.text"}, "hashes": {"sha256": "c3RhbGUgaGFzaA", "md5": "kept"}})),
+        // events that are not joins but carry the key of restricted joins: only joins need the authorising server's signature
+        ("member_leave_with_authorising_user_key", json!({"type": "m.room.member", "room_id": "!r:a.org", "sender": "@u:a.org", "state_key": "@u:a.org", "origin_server_ts": 5,
+            "depth": 6, "prev_events": [], "auth_events": [], "content": {"membership": "leave", "join_authorised_via_users_server": "@x:b.org"}})),
+        ("message_with_authorising_user_key", json!({"type": "m.room.message", "room_id": "!r:a.org", "sender": "@u:a.org", "origin_server_ts": 6, "depth": 7,
+            "prev_events": [], "auth_events": [], "content": {"body": "hello", "msgtype": "m.text", "join_authorised_via_users_server": "@x:b.org"}})),
         ("create", json!({"type": "m.room.create", "room_id": "!r:a.org", "sender": "@u:a.org", "state_key": "", "origin_server_ts": 4,
             "depth": 1, "prev_events": [], "auth_events": [], "content": {"creator": "@u:a.org", "room_version": "9", "x": 1}})),
     ]
@@ -285,7 +290,7 @@ pub fn run(_tier: &str) -> Report {
             // unsigned changes nothing
             let mut u = o.clone();
             u.insert("unsigned".to_owned(), CanonicalJsonValue::Object(obj(json!({"x": 1}))));
-            if !matches!(verify_event(&keys, &u, &rules), Ok(Verified::All)) {
+            if format!("{:?}", verify_event(&keys, &u, &rules)) != format!("{:?}", verify_event(&keys, &o, &rules)) {
                 fail(&mut f_unsigned, d("verify_event depends on `unsigned`"));
             }
             // changing a hashed field that redaction strips -> Signatures
@@ -351,9 +356,60 @@ pub fn run(_tier: &str) -> Report {
             }
         }
     }
+    // ---------------- required signers: the sender's server unless the event is an invite created from a third-party invite,
+    // the event ID's server in room versions 1-2, the authorising user's server for restricted JOINS from version 8
+    let mut f_signers = vec![];
+    let c1 = keypair("c");
+    for v in &versions {
+        let rules = v.rules().unwrap();
+        let old_ids = rules.signatures.check_event_id_server;
+        let restricted = rules.signatures.check_join_authorised_via_users_server;
+        let mut all_keys = PublicKeyMap::new();
+        add_key(&mut all_keys, "a.org", &a1);
+        add_key(&mut all_keys, "b.org", &b1);
+        add_key(&mut all_keys, "c.org", &c1);
+        let signed = |ev: &Value, event_id: &str, signers: &[&str]| -> CanonicalJsonObject {
+            let mut o = obj(ev.clone());
+            if old_ids {
+                o.insert("event_id".to_owned(), CanonicalJsonValue::String(event_id.to_owned()));
+            }
+            for s in signers {
+                let kp = match *s { "a.org" => &a1, "b.org" => &b1, _ => &c1 };
+                hash_and_sign_event(s, kp, &mut o, &rules.redaction).unwrap();
+            }
+            o
+        };
+        let join = json!({"type": "m.room.member", "room_id": "!r:a.org", "sender": "@u:a.org", "state_key": "@u:a.org", "origin_server_ts": 2, "depth": 4,
+            "prev_events": [], "auth_events": [], "content": {"membership": "join", "join_authorised_via_users_server": "@x:b.org"}});
+        let tpi = json!({"type": "m.room.member", "room_id": "!r:a.org", "sender": "@u:a.org", "state_key": "@i:b.org", "origin_server_ts": 2, "depth": 4,
+            "prev_events": [], "auth_events": [], "content": {"membership": "invite", "third_party_invite": {"display_name": "i", "signed": {"mxid": "@i:b.org", "token": "t", "signatures": {}}}}});
+        let plain_invite = json!({"type": "m.room.member", "room_id": "!r:a.org", "sender": "@u:a.org", "state_key": "@i:b.org", "origin_server_ts": 2, "depth": 4,
+            "prev_events": [], "auth_events": [], "content": {"membership": "invite"}});
+        let msg = events()[0].1.clone();
+        // (event, event ID in versions 1-2, signers, whether the signer set is sufficient)
+        let table: Vec<(&str, &Value, &str, Vec<&str>, bool)> = vec![
+            ("restricted join signed by the sender's and the authorising server", &join, "$e:a.org", vec!["a.org", "b.org"], true),
+            ("restricted join signed by the sender's server only", &join, "$e:a.org", vec!["a.org"], !restricted),
+            ("restricted join signed by the authorising server only", &join, "$e:a.org", vec!["b.org"], false),
+            ("message signed by the sender's server, event ID of another server", &msg, "$e:c.org", vec!["a.org"], !old_ids),
+            ("message signed by the sender's and the event ID's server", &msg, "$e:c.org", vec!["a.org", "c.org"], true),
+            ("message signed by another server only", &msg, "$e:a.org", vec!["b.org"], false),
+            ("invite from a third-party invite signed by the invited user's server only", &tpi, "$e:b.org", vec!["b.org"], true),
+            ("ordinary invite signed by the invited user's server only", &plain_invite, "$e:b.org", vec!["b.org"], false),
+        ];
+        for (what, ev, event_id, signers, sufficient) in table {
+            cases += 1;
+            let o = signed(ev, event_id, &signers);
+            let got = verify_event(&all_keys, &o, &rules);
+            if matches!(got, Ok(Verified::All)) != sufficient {
+                fail(&mut f_signers, json!({"room_version": v.as_str(), "case": what, "signers": signers, "expected": if sufficient { "Ok(All)" } else { "Err" }, "got": format!("{:?}", got),
+                    "event": serde_json::to_value(&o).unwrap()}));
+            }
+        }
+    }
     let _ = BTreeMap::<u8, u8>::new();
     Report {
-        bound: "4 event shapes x room versions 1-11 x every top-level and content key replaced or removed after signing (plus one added field, unsigned) x 2 entities; sign_json with 8 key-version spellings incl. non-alphanumeric; fresh random Ed25519 keys".to_owned(),
+        bound: "7 event shapes (incl. non-join events carrying join_authorised_via_users_server) x room versions 1-11 x every top-level and content key replaced or removed after signing (plus one added field, unsigned) x 2 entities; sign_json with 8 key-version spellings incl. non-alphanumeric; required signers: 8 (event, signer set) rows x room versions 1-11; fresh random Ed25519 keys".to_owned(),
         cases,
         obligations: vec![
             ("sign_then_verify_succeeds_and_tampering_fails", cases, f_roundtrip),
@@ -365,6 +421,7 @@ pub fn run(_tier: &str) -> Report {
             ("event_redacted_copy_keeps_valid_signatures", cases, f_event_redacted),
             ("event_stripped_field_change_gives_signatures_only", cases, f_event_stripped),
             ("event_kept_field_change_or_missing_signer_fails", cases, f_event_kept),
+            ("event_required_signers_are_the_ones_the_room_version_demands", cases, f_signers),
         ],
     }
 }
